@@ -95,9 +95,11 @@ where
     K: GGLWEInfos,
     M: GLWEPackerOps<BE>,
 {
-    GLWE::<Vec<u8>>::bytes_of_from_infos(res_infos)
+    // one temporary for the combination, one for an incoming ciphertext given in another radix
+    2 * GLWE::<Vec<u8>>::bytes_of_from_infos(res_infos)
         + module
             .glwe_shift_tmp_bytes()
+            .max(module.glwe_normalize_tmp_bytes())
             .max(module.glwe_automorphism_tmp_bytes(res_infos, res_infos, key_infos))
 }
 
@@ -270,7 +272,40 @@ pub(crate) fn pack_core<A, K, H, M, BE: Backend>(
     }
 }
 
+/// Brings the incoming ciphertext into the accumulator's radix (if needed) before combining.
 fn combine<B, K, H, M, BE: Backend>(
+    module: &M,
+    acc: &mut Accumulator,
+    b: Option<&B>,
+    i: usize,
+    auto_keys: &H,
+    scratch: &mut Scratch<BE>,
+) where
+    B: GLWEToRef + GLWEInfos,
+    M: ModuleLogN
+        + GLWEAutomorphism<BE>
+        + GaloisElement
+        + GLWERotate<BE>
+        + GLWESub
+        + GLWEShift<BE>
+        + GLWEAdd
+        + GLWENormalize<BE>
+        + GLWECopy,
+    K: GGLWEPreparedToRef<BE> + GetGaloisElement + GGLWEInfos,
+    H: GLWEAutomorphismKeyHelper<K, BE>,
+    Scratch<BE>: ScratchTakeCore<BE>,
+{
+    if let Some(b_ref) = b {
+        if b_ref.base2k() != acc.data.base2k() {
+            let (mut b_conv, scratch_1) = scratch.take_glwe(&acc.data);
+            module.glwe_normalize(&mut b_conv, b_ref, scratch_1);
+            return combine_same_radix(module, acc, Some(&b_conv), i, auto_keys, scratch_1);
+        }
+    }
+    combine_same_radix(module, acc, b, i, auto_keys, scratch)
+}
+
+fn combine_same_radix<B, K, H, M, BE: Backend>(
     module: &M,
     acc: &mut Accumulator,
     b: Option<&B>,
